@@ -99,6 +99,7 @@ def alphabet_U0(conf):
     """one ordered pair only: small enough for the search to close (every reachable state of the one-pair machine)"""
     ops = [('add', 0, 1, t, e) for (t, e) in spans(conf['w'])]
     ops.append(('addnot', 0, 1))
+    ops.append(('add', 0, 1, None, 2))        # vanishing time given, appearance missing
     return ops
 
 
@@ -199,6 +200,7 @@ def alphabet_U2(conf, bulk=True, nodes=True):
             ops.append(('add', i, j, t, e))
     ops.append(('addnot', 0, 1))
     ops.append(('addnot', 2, 3))
+    ops.append(('add', 1, 2, None, 1))          # vanishing time given, appearance missing
     if bulk:
         w = conf['w']
         bsp = [(0, None), (1, None), (w - 1, None), (0, 2), (1, w)]
@@ -241,6 +243,8 @@ def op_concrete(conf, op):
     T = lambda t: time_of(conf, t)
     k = op[0]
     if k == 'add':
+        if op[3] is None:
+            return 'add_interaction(%r, %r, t=None, e=%r)' % (n(op[1]), n(op[2]), T(op[4]))
         if op[4] is None:
             return 'add_interaction(%r, %r, t=%r)' % (n(op[1]), n(op[2]), T(op[3]))
         return 'add_interaction(%r, %r, t=%r, e=%r)' % (n(op[1]), n(op[2]), T(op[3]), T(op[4]))
@@ -295,7 +299,9 @@ def apply_op(G, conf, op):
     k = op[0]
     try:
         if k == 'add':
-            if op[4] is None:
+            if op[3] is None:
+                G.add_interaction(n(op[1]), n(op[2]), None, T(op[4]))
+            elif op[4] is None:
                 G.add_interaction(n(op[1]), n(op[2]), T(op[3]))
             else:
                 G.add_interaction(n(op[1]), n(op[2]), T(op[3]), T(op[4]))
